@@ -539,3 +539,80 @@ def rule_eps_degree(db, chk, cfg, rule="EPS.degree"):
                                   % (canon(c)[:70], p0.get("name"), g.name, "squared length" if want == 2 else "length", canon(args[i])[:40],
                                      {1: "length", 2: "squared length"}.get(got, "length to the power %d" % got), got), where(c), cfg=cfg)
     return n
+
+
+# ---------------------------------------------------------------------------
+# RDP.spans: both halves are examined whenever they have an interior vertex
+# ---------------------------------------------------------------------------
+
+def rule_rdp_spans(db, chk, cfg, rule="RDP.spans"):
+    """After keeping the farthest vertex idx of the span (begin, end), RDP must examine the two sub-spans (begin, idx) and (idx, end)
+    whenever they contain a vertex of their own: a sub-span that is skipped keeps none of its vertices, however far they are from
+    the chord.  The guards of the two recursive calls are interpreted for sub-span lengths 1..4: the call is made iff the sub-span
+    has at least one interior vertex (length >= 2), and it is handed exactly that sub-span."""
+    from ..evalx import Interp, Unsupported
+    from ..astq import if_parts
+    n = 0
+    for f in db.find("RDP"):
+        if f.is_pattern or f.body is None or len(f.params) < 5:
+            continue
+        pn = [p.get("name") for p in f.params]
+        b, e = pn[1], pn[2]
+        par = {}
+        for x in walk(f.body):
+            for c in kids(x):
+                if isinstance(c, dict):
+                    par[id(c)] = x
+        calls = [c for c in walk(f.body) if c.get("kind") == "CallExpr" and db.callee_func(c) is not None and db.callee(c)[0] == "RDP"]
+        sides = {}
+        for c in calls:
+            a = [canon(z) for z in db.call_args(c)]
+            if len(a) < 3:
+                continue
+            lo, hi = a[1], a[2]
+            side = "left" if lo == b else ("right" if hi == e else None)
+            idxv = hi if side == "left" else (lo if side == "right" else None)
+            if side is None:
+                chk.instance(rule, {"function": f.qual, "call": canon(c)[:60], "cfg": cfg}, ok=False)
+                chk.violation(rule, f.qual, "span|%s" % canon(c)[:30], "the recursive call `%s` is handed neither (begin, idx) nor (idx, end)" % canon(c)[:70], where(c), cfg=cfg)
+                n += 1
+                continue
+            conds = []
+            p = par.get(id(c))
+            child = c
+            while p is not None:
+                if p.get("kind") == "IfStmt":
+                    cond, then, els = if_parts(p)
+                    inthen = any(y is child or y is c for y in walk(then))
+                    conds.append((cond, inthen))
+                child, p = p, par.get(id(p))
+            sides[side] = (c, idxv, conds)
+        if set(sides) != {"left", "right"}:
+            raise AnalysisBroken("RDP.spans: the two recursive calls (begin, idx) / (idx, end) of RDP were not both found")
+        for side, (c, idxv, conds) in sides.items():
+            for length in (1, 2, 3, 4):
+                for other in (1, 3):
+                    if side == "left":
+                        env = {b: 10, idxv: 10 + length, e: 10 + length + other}
+                    else:
+                        env = {b: 10, idxv: 10 + other, e: 10 + other + length}
+                    taken = True
+                    try:
+                        for cond, inthen in conds:
+                            v = bool(Interp(db, dict(env)).ev(cond))
+                            if v != inthen:
+                                taken = False
+                    except Unsupported as ex:
+                        raise AnalysisBroken("RDP.spans: cannot interpret the guard of `%s`: %s" % (canon(c)[:50], ex))
+                    want = length >= 2
+                    n += 1
+                    ok = taken == want
+                    chk.instance(rule, {"function": f.qual, "sig": f.sig[:40], "sub_span": side, "length": length, "examined": taken, "cfg": cfg} if (not ok or n % 8 == 1) else None, ok=ok)
+                    if not ok:
+                        chk.violation(rule, f.qual, "%s|len%d" % (side, length), "RDP: the %s sub-span (%s) of length %d (%d interior vert%s) is %s; a sub-span must be "
+                                      "examined exactly when it has an interior vertex" % (side, "begin..idx" if side == "left" else "idx..end", length, length - 1,
+                                                                                            "ex" if length == 2 else "ices", "examined" if taken else "skipped"), where(c), cfg=cfg)
+                        break
+    if n < 16:
+        raise AnalysisBroken("RDP.spans: only %d guard cells evaluated" % n)
+    return n
